@@ -282,7 +282,7 @@ pub fn run(args: &Args) {
         rep.finish();
         return;
     }
-    for k in 0..args.budget(3_200, 60_000) {
+    for k in 0..args.budget(3_200, 9_600) {
         one(&mut rep, args.case_seed(k), args.thorough);
     }
     rep.finish();
